@@ -156,7 +156,7 @@ def oracle(ctx, seeds=None):
                 res.fail('euler:residual:insup-sweep', "uniform supersonic state M=%r with matching insup/outsup (ptot=%r rttot=%r, gamma=%r) in a sweep of Mach numbers at these total conditions: residual %r" %
                          (M, pt_, rt_, g, max(float(np.max(np.abs(x))) for x in r_)), dict(cfg=cfg))
     # ---- 2D uniform states, any flow angle
-    for i in range(ctx.n(40, 600)):
+    for i in range(ctx.n(60, 600)):
         cfg = cfg2d.rand_config2d(rng, per=(i % 2 == 0))
         n = cfg['nx'] * cfg['ny']; g = cfg['gamma']
         r = gens.loguni(rng, 0.1, 10); p = gens.loguni(rng, 0.1, 10); M = float(rng.choice([0.0, 0.4, 0.9, 1.8])); th = rng.uniform(0, 2 * np.pi)
@@ -174,7 +174,9 @@ def oracle(ctx, seeds=None):
                 cfg['bc'] = {t: {'type': 'sym'} for t in ('left', 'right', 'top', 'bottom')}
         if i % 4 == 3:   # oblique supersonic stream: matching insup (with its angle) on two inflow sides, outsup on the others
             M = float(rng.choice([1.3, 1.8, 2.5])); c = np.sqrt(g * p / r)
-            deg = float(rng.choice([30.0, -20.0, 45.0, 60.0, -37.5, 10.0, 135.0, 200.0, 0.0, 0.0, 90.0, 180.0, -90.0, 270.0, rng.uniform(0, 360)])); th = np.deg2rad(deg)
+            ANG = [0.0, 30.0, 90.0, -20.0, 180.0, 45.0, -90.0, 60.0, 270.0, -37.5, 10.0, 135.0, 200.0]
+            deg = float(ANG[(i // 4) % (len(ANG) + 1)]) if (i // 4) % (len(ANG) + 1) < len(ANG) else float(rng.uniform(0, 360))     # every listed angle in every run
+            th = np.deg2rad(deg)
             if deg in (0.0, 90.0, 180.0, -90.0, 270.0):
                 th = np.deg2rad(deg); th = float(np.arctan2(np.round(np.sin(th)), np.round(np.cos(th))))     # exact axis directions
             f_ = 1 + .5 * (g - 1) * M * M
